@@ -60,7 +60,7 @@ theorem seek_in_horizon (hC : Lawful C VC WC) (hscore : ∀ {c l}, VC c l → VC
                scores := if s.sum then clearScores s.scores (s.bucketIdx * 64) ((t - s.ws) / 64 * 64) else s.scores,
                bucketIdx := (t - s.ws) / 64 }) (Spec.seek t l) := by
   obtain ⟨ls, U, h2, hne, hU, hwp, hwb, hUh, hsl, hcase⟩ := hV
-  rcases hcase with ⟨hT, _, _, _⟩ | ⟨hws, hlt, rfl⟩
+  rcases hcase with ⟨hT, _, _, _⟩ | ⟨hws, hdH, hlt, rfl⟩
   · omega
   · -- the filtered window keeps exactly the deltas in buckets ≥ the target's
     have hkeep : ∀ δ ∈ s.window, (!(decide (s.bucketIdx ≤ δ / 64) && decide (δ / 64 < (t - s.ws) / 64))) = true ↔
@@ -93,7 +93,7 @@ theorem seek_in_horizon (hC : Lawful C VC WC) (hscore : ∀ {c l}, VC c l → VC
           · exact List.mem_cons_of_mem _ (List.mem_append_right _ h)
     have hV1 : V VC H ({ s with window := w', scores := (if s.sum then clearScores s.scores (s.bucketIdx * 64) ((t - s.ws) / 64 * 64) else s.scores), bucketIdx := (t - s.ws) / 64 } : State σ)
         (s.doc :: (w'.map (s.ws + ·) ++ U)) := by
-      refine ⟨ls, U, h2, hne, hU, hwp.sublist List.filter_sublist, ?_, hUh, hl1s, Or.inr ⟨hws, ?_, rfl⟩⟩
+      refine ⟨ls, U, h2, hne, hU, hwp.sublist List.filter_sublist, ?_, hUh, hl1s, Or.inr ⟨hws, hdH, ?_, rfl⟩⟩
       · intro δ hδ
         have := (hw'mem δ).mp hδ
         exact ⟨(hwb δ this.1).1, this.2⟩
@@ -260,7 +260,7 @@ theorem refill_pop_law' (hC : Lawful C VC WC) (hscore : ∀ {c l}, VC c l → VC
               have := ((Spec.mem_seek hUs b).mp hb).2
               omega
         exact (pairwise_ext hpwR hUs.1 hmemR).symm
-      refine ⟨ls', Spec.seek (m + H) U, ?_, r2, hU', ?_, ?_, ?_, hUs, Or.inr ⟨by rw [f3, f5]; omega, ?_, ?_⟩⟩
+      refine ⟨ls', Spec.seek (m + H) U, ?_, r2, hU', ?_, ?_, ?_, hUs, Or.inr ⟨by rw [f3, f5]; omega, by rw [f3, f5]; omega, ?_, ?_⟩⟩
       · rw [f6]; exact r1
       · rw [f2]; exact hp''.2
       · intro δ hδ
@@ -360,7 +360,7 @@ theorem seek_law (hC : Lawful C VC WC) (hscore : ∀ {c l}, VC c l → VC (C.sco
       exact seek_in_horizon hC hscore hH hH0 hV hdt ht hgap
     · simp only [hgap, decide_false, Bool.false_eq_true, if_false, revalidate_guard, Bool.or_true, if_true]
       obtain ⟨ls, U, h2, hne, hU, hwp, hwb, hUh, _, hcase⟩ := hV
-      rcases hcase with ⟨hT, _, _, _⟩ | ⟨hws, hlt, rfl⟩
+      rcases hcase with ⟨hT, _, _, _⟩ | ⟨hws, hdH, hlt, rfl⟩
       · omega
       · have htfar : s.ws + H ≤ t := by omega
         have hss := SimpleUnion.all2_sorted hC h2
@@ -414,6 +414,161 @@ theorem core (hC : Lawful C VC WC) (hscore : ∀ {c l}, VC c l → VC (C.score c
     Core (fun s : State σ => s.doc) (advance C H) (seek fx C H) (V VC H) where
   toCore0 := core0 hC hscore hH hH0
   seek := fun h hd ht => seek_law hC hscore hH hH0 fx h hd ht
+
+
+/-- what `refill` does on an empty window (without the following pop) -/
+theorem refill_law (hC : Lawful C VC WC) (hscore : ∀ {c l}, VC c l → VC (C.score c).2 l)
+    {H : Nat} (hH0 : 0 < H) {s' : State σ} {ls : List (List Nat)} {U : List Nat}
+    (e2 : s'.window = []) (h2 : All2 VC s'.docsets ls) (hne : ∀ li ∈ ls, li ≠ [])
+    (hU : SimpleUnion.IsUnion U ls) :
+    match refill C H s' with
+      | none => ls = []
+      | some s'' => ∃ ls' m, U ≠ [] ∧ m = Spec.doc U ∧ All2 VC s''.docsets ls' ∧ (∀ li ∈ ls', li ≠ [])
+          ∧ SimpleUnion.IsUnion (Spec.seek (m + H) U) ls' ∧ s''.window.Pairwise (· < ·)
+          ∧ (∀ δ, δ ∈ s''.window ↔ ∃ x ∈ U, x < m + H ∧ δ = x - m) ∧ s''.ws = m ∧ s''.sum = s'.sum := by
+    unfold refill
+    rw [all2_isEmpty h2]
+    cases ls with
+    | nil =>
+      -- every child is exhausted: the end
+      have hUnil := isUnion_nil hU
+      simp only [List.isEmpty_nil, if_true]
+    | cons li0 ls0 =>
+      simp only [List.isEmpty_cons, Bool.false_eq_true, if_false]
+      have hUs := hU.1
+      have hss := SimpleUnion.all2_sorted hC h2
+      have hmdoc : minDoc C s'.docsets = Spec.doc U := by
+        rw [minDoc_eq hC h2, SimpleUnion.doc_union hU hss]
+      -- U is not empty
+      have hUne : U ≠ [] := by
+        obtain ⟨a, m, ham⟩ := List.exists_cons_of_ne_nil (hne li0 (by simp))
+        intro h0
+        have : a ∈ U := (hU.2 a).mpr ⟨li0, by simp, by rw [ham]; simp⟩
+        rw [h0] at this; cases this
+      obtain ⟨m, Ut, hUm⟩ := List.exists_cons_of_ne_nil hUne
+      have hm : Spec.doc U = m := by rw [hUm]; rfl
+      have hmin : ∀ li ∈ (li0 :: ls0), li ≠ [] ∧ ∀ x ∈ li, m ≤ x := by
+        intro li hli
+        refine ⟨hne li hli, fun x hx => ?_⟩
+        have : x ∈ U := (hU.2 x).mpr ⟨li, hli, hx⟩
+        rw [← hm]; exact Exclude.all_ge_doc hUs x this
+      obtain ⟨ls', r1, r2, r3, r4, r5⟩ := refillAll_law hC hscore (H := H) (m := m) (sum := s'.sum) h2 hmin
+        (w := s'.window) (sc := s'.scores) (by rw [e2]; exact List.Pairwise.nil)
+      rw [hmdoc, hm]
+      -- the refilled window
+      generalize hrw : (refillAll C H m s'.sum s'.docsets s'.window s'.scores) = r at r1 r4 r5
+      rcases r with ⟨cs', w', sc'⟩
+      simp only at r1 r4 r5
+      have hwmem : ∀ δ, δ ∈ w' ↔ ∃ x ∈ U, x < m + H ∧ δ = x - m := by
+        intro δ
+        rw [r5 δ, e2]
+        simp only [List.not_mem_nil, false_or]
+        constructor
+        · rintro ⟨li, hli, x, hx, h1, h2'⟩; exact ⟨x, (hU.2 x).mpr ⟨li, hli, hx⟩, h1, h2'⟩
+        · rintro ⟨x, hx, h1, h2'⟩
+          obtain ⟨li, hli, hx'⟩ := (hU.2 x).mp hx
+          exact ⟨li, hli, x, hx', h1, h2'⟩
+      have hU' : SimpleUnion.IsUnion (Spec.seek (m + H) U) ls' := by
+        refine ⟨hUs.seek _, fun x => ?_⟩
+        rw [Spec.mem_seek hUs, r3 x]
+        constructor
+        · rintro ⟨hx, hge⟩
+          obtain ⟨li, hli, hx'⟩ := (hU.2 x).mp hx
+          exact ⟨li, hli, hx', hge⟩
+        · rintro ⟨li, hli, hx, hge⟩
+          exact ⟨(hU.2 x).mpr ⟨li, hli, hx⟩, hge⟩
+      exact ⟨ls', m, hUne, rfl, r1, r2, hU', r4, hwmem, rfl, trivial⟩
+
+
+/-- the refilled window has as many deltas as the union has documents below the new horizon -/
+theorem window_length_eq {U w : List Nat} {m H : Nat} (hUs : Sorted U) (hm : ∀ x ∈ U, m ≤ x)
+    (hw : w.Pairwise (· < ·)) (hmem : ∀ δ, δ ∈ w ↔ ∃ x ∈ U, x < m + H ∧ δ = x - m) :
+    w.length = (U.takeWhile (· < m + H)).length := by
+  have hpw : ((U.takeWhile (· < m + H)).map (· - m)).Pairwise (· < ·) := by
+    rw [List.pairwise_map]
+    have hp : (U.takeWhile (· < m + H)).Pairwise (· < ·) := hUs.1.sublist (List.takeWhile_sublist _)
+    refine hp.imp_of_mem ?_
+    intro a b ha hb hab
+    have h1 := hm a ((mem_takeWhile_sorted hUs _ a).mp ha).1
+    have h2 := hm b ((mem_takeWhile_sorted hUs _ b).mp hb).1
+    omega
+  have : w = (U.takeWhile (· < m + H)).map (· - m) := by
+    apply pairwise_ext hw hpw
+    intro δ
+    rw [hmem δ, List.mem_map]
+    constructor
+    · rintro ⟨x, hx, h1, rfl⟩; exact ⟨x, (mem_takeWhile_sorted hUs _ x).mpr ⟨hx, h1⟩, rfl⟩
+    · rintro ⟨x, hx, rfl⟩
+      have := (mem_takeWhile_sorted hUs _ x).mp hx
+      exact ⟨x, this.1, this.2, rfl⟩
+  rw [this, List.length_map]
+
+/-- `while self.refill() { count += window; clear }` adds the number of documents of the children -/
+theorem countLoop_law (hC : Lawful C VC WC) (hscore : ∀ {c l}, VC c l → VC (C.score c).2 l)
+    {H : Nat} (hH0 : 0 < H) :
+    ∀ (fuel : Nat) {s : State σ} {cnt : Nat} {ls : List (List Nat)} {U : List Nat},
+      U.length + 1 ≤ fuel → s.window = [] → All2 VC s.docsets ls → (∀ li ∈ ls, li ≠ []) →
+      SimpleUnion.IsUnion U ls → (countLoop C H fuel s cnt).1 = cnt + U.length := by
+  intro fuel
+  induction fuel with
+  | zero => intro s cnt ls U hf; omega
+  | succ n ih =>
+    intro s cnt ls U hf hw h2 hne hU
+    have key := refill_law hC hscore hH0 hw h2 hne hU
+    simp only [countLoop]
+    revert key
+    generalize refill C H s = r
+    cases r with
+    | none =>
+      intro hnil
+      simp only at hnil ⊢
+      subst hnil
+      rw [isUnion_nil hU]; simp
+    | some s' =>
+      rintro ⟨ls', m, hUne, hm, r1, r2, hU', r4, r5, _, _⟩
+      simp only
+      have hUs := hU.1
+      have hge : ∀ x ∈ U, m ≤ x := by rw [hm]; exact Exclude.all_ge_doc hUs
+      have hlen := window_length_eq hUs hge r4 r5
+      have hsplit : U.length = (U.takeWhile (· < m + H)).length + (Spec.seek (m + H) U).length := by
+        have := congrArg List.length (List.takeWhile_append_dropWhile (p := (· < m + H)) (l := U))
+        rw [List.length_append] at this
+        exact this.symm
+      have hpos : 0 < (U.takeWhile (· < m + H)).length := by
+        obtain ⟨a, t, hUm⟩ := List.exists_cons_of_ne_nil hUne
+        have ha : m = a := by rw [hm, hUm]; rfl
+        rw [hUm, List.takeWhile_cons]
+        have : a < m + H := by omega
+        simp [this]
+      have := ih (s := { s' with window := [] }) (cnt := cnt + s'.window.length) (ls := ls')
+        (U := Spec.seek (m + H) U) (by omega) rfl r1 r2 hU'
+      rw [this, hlen]
+      omega
+
+/-- `count_including_deleted` returns the number of documents still to come (it leaves `doc()`
+stale: KNOWN_FINDINGS `C13:union-count-doc-not-terminated`; only the value is claimed) -/
+theorem count_law (hC : Lawful C VC WC) (hscore : ∀ {c l}, VC c l → VC (C.score c).2 l)
+    {H : Nat} (hH : 64 ∣ H) (hH0 : 0 < H) (fx : Fix) {s : State σ} {l : List Nat} (hV : V VC H s l) :
+    (count fx C H s).1 = Spec.count l := by
+  obtain ⟨ls, U, h2, hne, hU, hwp, hwb, hUh, hsl, hcase⟩ := hV
+  unfold count Spec.count
+  rcases hcase with ⟨hT, _, _, rfl⟩ | ⟨_, _, _, rfl⟩
+  · simp [hT]
+  · have hdT : s.doc ≠ TERMINATED := by
+      have := hsl.2 s.doc (by simp); omega
+    simp only [hdT, if_false]
+    have hfilter : s.window.filter (fun δ => decide (s.bucketIdx ≤ δ / 64) && decide (δ / 64 < NB H)) = s.window := by
+      apply List.filter_eq_self.mpr
+      intro δ hδ
+      have := hwb δ hδ
+      have := div64_lt hH this.1
+      simp only [Bool.and_eq_true, decide_eq_true_eq]
+      omega
+    rw [hfilter]
+    have hUlen : U.length + 1 ≤ FUEL := by have := hU.1.length_le; unfold FUEL; omega
+    rw [countLoop_law hC hscore hH0 FUEL (s := { s with window := [] }) hUlen rfl h2 hne hU]
+    simp only [List.length_cons, List.length_append, List.length_map]
+    omega
 
 
 end BUnion
